@@ -160,8 +160,8 @@ def dim_of(e):
 
 def dimension_check(ev, expr, unit_expr, what, node):
     ev.dim_checks += 1
-    if sp.sympify(expr) == 0:
-        return None       # a zero quantity carries no unit in the term algebra
+    if sp.sympify(expr) == 0 or sp.sympify(expr) is sp.nan:
+        return None       # zero / NaN quantities carry no unit in the term algebra
     de, du = dim_of(sp.sympify(expr)), dim_of(sp.sympify(unit_expr))
     if de is not None and du is not None:
         if de == du:
@@ -649,6 +649,9 @@ def val_getattr(ev, obj, name, fr, node):
             return getattr(obj, name)
         return BoundBuiltin(obj, name)
     if isinstance(obj, (StrV, DictV, ListV, TupleV, SetV)):
+        pytype = {StrV: str, DictV: dict, ListV: list, TupleV: tuple, SetV: set}[type(obj)]
+        if not hasattr(pytype, name):
+            raise Raised("AttributeError", node, f"{pytype.__name__} has no attribute {name}")
         return BoundBuiltin(obj, name)
     if isinstance(obj, NoneV):
         raise Raised("AttributeError", node, f"None has no attribute {name}")
@@ -869,11 +872,39 @@ def str_method(ev, recv: StrV, name, args, kwargs, fr, node):
         return StrV(s.translate(args[0].payload))
     if name == "replace":
         return StrV(s.replace(sa[0], sa[1]))
+    if not hasattr("", name):
+        from .symeval import Raised
+        raise Raised("AttributeError", node, f"str has no attribute {name}")
     ev.unsupported(f"str method {name}", node, fr)
+
+
+NP_DTYPES = {"float32", "float64", "complex64", "complex128", "int64", "int32", "int16", "int8", "uint8", "bool_", "float16"}
+
+
+def can_cast_safe(src, dst):
+    """numpy's own casting table (third-party introspection, never pulsarbat)."""
+    import numpy as np
+    try:
+        return bool(np.can_cast(np.dtype(getattr(np, src)), np.dtype(getattr(np, dst)), casting="safe"))
+    except Exception:
+        return None
 
 
 def num_method(ev, x: Num, name, args, kwargs, fr, node):
     from .symeval import Raised
+    if name in ("to", "to_value", "isclose") and x.kind in ("number", "array", "bool") and x.tag != "unit":
+        raise Raised("AttributeError", node, f"plain number/array has no .{name}")
+    if name == "astype" and isinstance(kwargs.get("casting"), StrV) and kwargs["casting"].s == "safe":
+        dt = args[0] if args else kwargs.get("dtype")
+        if isinstance(dt, ExtV) and isinstance(x.dtype, ExtV):
+            a, b = x.dtype.dotted.split(".")[-1], dt.dotted.split(".")[-1]
+            if a in NP_DTYPES and b in NP_DTYPES:
+                ok = can_cast_safe(a, b)
+                if ok is False:
+                    raise Raised("TypeError", node, f"cannot cast {a} to {b} under casting='safe'")
+                if ok is True:
+                    return x.like(x.expr, unit=x.unit, dtype=dt)
+        ev.unsupported("astype(casting='safe') between dtypes the evaluator does not know", node, fr)
     if name == "to":
         u_ = unit_of(ev, args[0] if args else kwargs["unit"], node)
         dimension_check(ev, x.expr, u_, f".to({u_})", node)
